@@ -1,6 +1,7 @@
 package htmljsonld
 
 import (
+	"mime"
 	"strings"
 
 	"github.com/dpb587/inspectjson-go/inspectjson"
@@ -105,7 +106,10 @@ func (r *Decoder) StatementTextOffsets() encoding.StatementTextOffsets {
 func (w *Decoder) walkNode(n *html.Node) {
 	if n.DataAtom == atom.Script {
 		for _, attr := range n.Attr {
-			if attr != (html.Attribute{Key: "type", Val: "application/ld+json"}) {
+			if attr.Namespace != "" || attr.Key != "type" {
+				continue
+			} else if mediaType, _, err := mime.ParseMediaType(attr.Val); err != nil || mediaType != "application/ld+json" {
+				// media types compare case-insensitively and may carry parameters (;profile=...)
 				continue
 			} else if n.FirstChild == nil {
 				// TODO warn?
